@@ -54,8 +54,15 @@ def case(spec) -> tuple:
         r = eq.equivalent(ast, [out], K=K)
     if r.verdict == 'sat':
         rep.update({'valuation': r.valuation, 'value_in': repr(r.vin), 'value_out': repr(r.vout)})
+        if duplicate_set_aggregate(ast):
+            return ('finding', 'not-equivalent:aggregate-over-set-with-duplicate-elements',
+                    f'simplify({text}) = {out}; at {r.valuation} input is {r.vin[1]!r} (also under the deduplicated reading), output is {r.vout}', rep)
         return ('finding', f'not-equivalent@{text}', f'simplify({text}) = {out}; at {r.valuation} input is {r.vin[1]!r}, output is {r.vout}', rep)
+    if r.verdict == 'rounding':
+        return ('allowed-exc', None, None, None)  # IEEE rounding of folded constants: stated as outside the claim
     if r.verdict not in ('unsat', 'identity'):
+        if duplicate_set_aggregate(ast):
+            return ('allowed-exc', None, None, None)  # member of the recorded defect class; this instance is not decided (irrational / uninterpreted model)
         return ('unknown', None, f'{text} => {out}: {r.verdict} {r.note}', None)
     # predicate wrapper: vacuous truth / contradiction exactly when the condition simplifies to True / False
     if t_in.name == 'BOOL' and sem.kind(ast) != 'HplLiteral':
@@ -70,6 +77,24 @@ def case(spec) -> tuple:
     if r.verdict == 'identity':
         return ('identity', None, None, 0.0)
     return ('ok' if r.reach else 'vacuous', None, None, r.secs)
+
+
+def duplicate_set_aggregate(e) -> bool:
+    """len/sum/prod applied to an enumerated set that lists the same element expression more than once"""
+    for n in sem.walk_nodes(e):
+        if sem.kind(n) == 'HplFunctionCall' and n.function.name in ('len', 'sum', 'prod') and n.arguments and sem.kind(n.arguments[0]) == 'HplSet':
+            vals = [str(v) for v in n.arguments[0].values]
+            if len(set(vals)) != len(vals):
+                return True
+            # ... or elements that only become the same expression once each is simplified (z / z and 1)
+            try:
+                from hpl.rewrite import simplify
+                vals = [str(simplify(rw.rebuild(v))) for v in n.arguments[0].values]
+                if len(set(vals)) != len(vals):
+                    return True
+            except Exception:
+                pass
+    return False
 
 
 def worker(chunk):
